@@ -162,6 +162,8 @@ def strtol (s : List Nat) (base : Nat) : Option (Int × Nat) :=
 
 /-- `long`/`int` -> `int` (two's complement, 32 bit) -/
 def wrapS32 (v : Int) : Int := (v + 2147483648) % 4294967296 - 2147483648
+/-- `long long` -> `unsigned int` (mod 2^32) -/
+def wrapU32 (v : Int) : Nat := (v % 4294967296).toNat
 /-- -> `int16_t` -/
 def wrapS16 (v : Int) : Int := (v + 32768) % 65536 - 32768
 /-- -> `int8_t` -/
